@@ -14,6 +14,7 @@ package main
 import (
 	"encoding/json"
 	"fmt"
+	"os"
 	"runtime"
 	"strings"
 	"sync"
@@ -415,6 +416,7 @@ func c05Execute(in c05In) *c05Trace {
 
 func (tr *c05Trace) obs() V {
 	steps := make(VL, len(tr.steps))
+	var ran []int
 	for i, st := range tr.steps {
 		pack := 0
 		for k := len(st.status) - 1; k >= 0; k-- {
@@ -426,15 +428,25 @@ func (tr *c05Trace) obs() V {
 			}
 			return 0
 		}
-		steps[i] = VL{VZ(st.res), VZ(pack), VZ(st.qlen*8 + b(st.busy)*4 + b(st.closed)*2 + b(st.flag)), VInts(st.ran)}
+		qword := st.qlen*8 + b(st.busy)*4 + b(st.closed)*2 + b(st.flag)
+		steps[i] = VZ(st.res + 4*(len(st.ran)+64*(qword+512*pack)))
+		// the harness's log only ever grows by appending: the final list and
+		// the lengths give every intermediate list
+		ran = st.ran
 	}
-	return VL{steps, VInts(tr.accepted), VB(false)}
+	return VL{steps, VInts(ran), VInts(tr.accepted), VB(false)}
 }
 
-var c05Cache sync.Map // JSON of the executed input -> *c05Trace (from the enumeration)
+var c05Cache sync.Map // JSON of the input -> executed schedule (for Coq printing)
+var c05Done sync.Map  // JSON of an enumerated input -> *c05Trace (the enumeration already ran it)
 
 func c05Run(in c05In) (V, Verdict) {
-	tr := c05Execute(in)
+	var tr *c05Trace
+	if t, ok := c05Done.LoadAndDelete(c05Key(in)); ok {
+		tr = t.(*c05Trace)
+	} else {
+		tr = c05Execute(in)
+	}
 	v := tr.verdict
 	full := c05In{Cb: in.Cb, Progs: in.Progs, Sched: tr.executed}
 	raw, _ := json.Marshal(full)
@@ -479,7 +491,9 @@ func c05Enumerate(cb int, progs [][2]int, limit int) []c05In {
 		}
 		tr := c05Execute(c05In{Cb: cb, Progs: progs, Sched: prefix, Drain: true})
 		ex := append([]int(nil), tr.executed...)
-		out = append(out, c05In{Cb: cb, Progs: progs, Sched: ex})
+		leaf := c05In{Cb: cb, Progs: progs, Sched: ex}
+		out = append(out, leaf)
+		c05Done.Store(c05Key(leaf), tr)
 		for d := len(ex) - 1; d >= len(prefix); d-- {
 			for _, c := range tr.cands[d] {
 				if c > ex[d] {
@@ -497,31 +511,102 @@ type c05Config struct {
 	progs [][2]int
 }
 
+func c05Tier() string {
+	for i, a := range os.Args {
+		if a == "--tier" && i+1 < len(os.Args) {
+			return os.Args[i+1]
+		}
+		if strings.HasPrefix(a, "--tier=") {
+			return a[len("--tier="):]
+		}
+	}
+	return "quick"
+}
+
+func c05Shrink(in c05In) []c05In {
+	var out []c05In
+	for i := range in.Sched {
+		c := in
+		c.Sched = append(append([]int{}, in.Sched[:i]...), in.Sched[i+1:]...)
+		c.Drain = true
+		out = append(out, c)
+	}
+	return out
+}
+
 func init() {
 	witness := c05In{Cb: -1, Progs: [][2]int{{0, 0}, {1, 0}, {2, 0}}, Sched: []int{0, 3, 3, 3, 3, 1, 2, 3, 2, 1}}
+	corpus := func() []c05In {
+		return []c05In{
+			witness,
+			// the same window with a plain Enqueue in place of Done
+			{Cb: -1, Progs: [][2]int{{0, 0}, {0, 0}, {2, 0}}, Sched: []int{0, 3, 3, 3, 3, 1, 2, 3, 2}, Drain: true},
+			// the window opened by the negotiation-needed callback
+			{Cb: 0, Progs: [][2]int{{0, 0}, {3, 0}, {2, 0}}, Sched: []int{1, 0, 3, 3, 3, 3, 3, 2, 3, 2}, Drain: true},
+			// witness continued to the end
+			{Cb: -1, Progs: [][2]int{{0, 0}, {1, 0}, {2, 0}}, Sched: []int{0, 3, 3, 3, 3, 1, 2, 3, 2, 1}, Drain: true},
+		}
+	}
 	Register(Spec[c05In]{
 		ID: "C05", Suite: "enum", CoqImports: []string{"Check.C05"},
 		CoqType: "Z * list (Z * Z) * list Z", CoqRun: "Check.C05.run",
-		Corpus: func() []c05In {
-			return []c05In{
-				witness,
-				// the same window with a plain Enqueue in place of Done
-				{Cb: -1, Progs: [][2]int{{0, 0}, {0, 0}, {2, 0}}, Sched: []int{0, 3, 3, 3, 3, 1, 2, 3, 2}},
-				// the window opened by the negotiation-needed callback
-				{Cb: 0, Progs: [][2]int{{0, 0}, {3, 0}, {2, 0}}, Sched: []int{1, 0, 3, 3, 3, 3, 3, 2, 3, 2}, Drain: true},
-			}
-		},
+		Corpus: corpus,
 		Exhaustive: func() []c05In {
-			var out []c05In
-			for _, c := range []c05Config{
+			cfgs := []c05Config{
 				{-1, [][2]int{{0, 0}, {2, 0}}},
 				{-1, [][2]int{{0, 1}, {2, 0}}},
 				{-1, [][2]int{{1, 0}, {2, 0}}},
-			} {
+				{0, [][2]int{{0, 0}, {3, 0}}},
+				{0, [][2]int{{0, 0}, {3, 0}, {2, 0}}},
+				{-1, [][2]int{{0, 0}, {1, 0}, {2, 0}}}, // the configuration of the repaired defect
+			}
+			if c05Tier() == "thorough" {
+				cfgs = append(cfgs,
+					c05Config{-1, [][2]int{{0, 0}, {0, 0}, {1, 0}}},
+					c05Config{-1, [][2]int{{0, 1}, {1, 0}, {2, 0}}},
+					c05Config{1, [][2]int{{0, 0}, {3, 0}, {2, 0}}},
+					c05Config{-1, [][2]int{{0, 0}, {2, 0}, {2, 0}}},
+					c05Config{-1, [][2]int{{0, 0}, {0, 0}, {2, 0}}},
+				)
+			}
+			var out []c05In
+			for _, c := range cfgs {
 				out = append(out, c05Enumerate(c.cb, c.progs, 0)...)
 			}
 			return out
 		},
-		Run: c05Run, Coq: c05Coq,
+		Run: c05Run, Coq: c05Coq, Shrink: c05Shrink,
+	})
+	// longer random schedules over random thread sets, continued until nothing can move
+	Register(Spec[c05In]{
+		ID: "C05", Suite: "rand", CoqImports: []string{"Check.C05"},
+		CoqType: "Z * list (Z * Z) * list Z", CoqRun: "Check.C05.run",
+		Quick: 300, Thorough: 12000,
+		Gen: func(r *Rand, i int) c05In {
+			n := r.Range(2, 6)
+			in := c05In{Cb: r.Range(-1, 1), Drain: true}
+			for k := 0; k < n; k++ {
+				switch x := r.Intn(10); {
+				case x < 4:
+					in.Progs = append(in.Progs, [2]int{0, r.Intn(3)})
+				case x < 6:
+					in.Progs = append(in.Progs, [2]int{1, 0})
+				case x < 8:
+					in.Progs = append(in.Progs, [2]int{2, 0})
+				default:
+					in.Progs = append(in.Progs, [2]int{3, 0})
+				}
+			}
+			m := r.Range(0, 40)
+			for k := 0; k < m; k++ {
+				if r.Chance(2, 5) {
+					in.Sched = append(in.Sched, n) // the worker
+				} else {
+					in.Sched = append(in.Sched, r.Intn(n+1))
+				}
+			}
+			return in
+		},
+		Run: c05Run, Coq: c05Coq, Shrink: c05Shrink,
 	})
 }
